@@ -58,7 +58,7 @@ AlgoGroups(X, P) == Groups(AlgoTuples(X, P))
 
 \* precondition of C01/C02: every perpendicular width > diameter + 2 tol  (tol = tn/td lattice units);
 \* checked in squared form with a rational upper bound dn/dd >= diameter + 2 tol
-WidthsOK(X, dn, dd) == IF CellDet(X.cell) > 40000 THEN WidthExceedsBig(X.cell, dn, dd) ELSE WidthExceeds(X.cell, dn, dd)
+WidthsOK(X, dn, dd) == IF CellDet(X.cell) > 1500 THEN WidthExceedsBig(X.cell, dn, dd) ELSE WidthExceeds(X.cell, dn, dd)
 AtomsInside(X) == \A a \in 1..Len(X.atoms) : Wrap(X.cell, X.atoms[a].pos) = X.atoms[a].pos
 
 ---------------------------------------------------------------------------
